@@ -12,6 +12,7 @@ import (
 
 	"zzgen/c15/common"
 	"zzgen/c15/shared"
+	"zzgen/c15/ver"
 )
 
 var _ = zzrt.Run
@@ -78,6 +79,7 @@ func H_C15_embedded() {
 	zzEq_FileDescriptor(thrift_reflection.GetFileDescriptor(ast), zzNoExtra(GetFileDescriptorForMain()), "main")
 	zzEq_FileDescriptor(thrift_reflection.GetFileDescriptor(ast.Includes[0].Reference), zzNoExtra(common.GetFileDescriptorForCommon()), "common")
 	zzEq_FileDescriptor(thrift_reflection.GetFileDescriptor(ast.Includes[1].Reference), zzNoExtra(shared.GetFileDescriptorForShared()), "shared")
+	zzEq_FileDescriptor(thrift_reflection.GetFileDescriptor(ast.Includes[2].Reference), zzNoExtra(ver.GetFileDescriptorForVerV1()), "ver.v1")
 	zzrt.Assert(GetFileDescriptorForMain().Filepath == "main.thrift" && common.GetFileDescriptorForCommon().Filepath == "inc/common.thrift", "file paths as given on the command line")
 	zzrt.Assert(thrift_reflection.LookupFD("main.thrift") == GetFileDescriptorForMain(), "registered under its path")
 	zzrt.Assert(thrift_reflection.LookupFD("shared.thrift") == shared.GetFileDescriptorForShared(), "a file included twice is registered once")
@@ -154,6 +156,15 @@ func H_C15_cross() {
 	zzrt.Assert(len(svc.GetAllMethods()) == 5, "all methods")
 	id := zzrt.Int32("id")
 	f := s.GetFieldById(id)
-	zzrt.Assert((f != nil) == (id == 1 || id == 2 || id == 3 || id == -1 || (id >= 5 && id <= 9)), "GetFieldById")
+	zzrt.Assert((f != nil) == (id == 1 || id == 2 || id == 3 || id == -1 || (id >= 5 && id <= 11)), "GetFieldById")
+	// an included file whose base name contains a dot
+	vfd := ver.GetFileDescriptorForVerV1()
+	d, err = s.GetFieldByName("vv").Type.GetStructDescriptor()
+	zzrt.Assert(err == nil && d != nil && d == vfd.GetStructDescriptor("V"), "ver.v1.V")
+	gt, err := s.GetFieldByName("vv").Type.GetGoType()
+	zzrt.Assert(err == nil && gt == reflect.TypeOf(ver.V{}), "Go type of ver.v1.V")
+	ed, err := s.GetFieldByName("vm").Type.KeyType.GetEnumDescriptor()
+	zzrt.Assert(err == nil && ed != nil && ed == vfd.GetEnumDescriptor("VE"), "ver.v1.VE")
+	zzrt.Assert(fd.GetServiceDescriptor("Svc3").GetParent() == vfd.GetServiceDescriptor("VS"), "base service ver.v1.VS")
 	zzrt.Cover("end")
 }
